@@ -41,7 +41,7 @@ FLIP_FIELDS = {"quote": ["message", "custom_data", "signature"],
                "attestation": ["message", "key", "auth_data", "signature"]}
 REQUIRED_LABELS = {t: ["valid", "invalid:quote", "invalid:attestation",
                        "invalid:quoting_enclave", "invalid:platform_ca", "depth:1", "depth:2",
-                       "depth:3", "revalidated:same", "revalidated:other"] + ["corr:" + k for k in sorted(set(CORR))]
+                       "depth:3", "revalidated:same", "revalidated:other", "tz:utc", "tz:other"] + ["corr:" + k for k in sorted(set(CORR))]
                    for t in ("quick", "thorough")}
 
 
@@ -62,9 +62,13 @@ def cases(draw, tier):
         corr.append({"kind": draw(st.sampled_from(CORR)), "el": draw(st.integers(0, 9)),
                      "field": draw(st.integers(0, 9)), "pos": draw(st.integers(0, 10 ** 6)),
                      "bit": draw(st.integers(0, 7)), "key": draw(st.integers(1, 2 ** 255)),
-                     "win": draw(st.sampled_from(["expired", "not-yet"])),
-                     "bwin": draw(st.sampled_from(["ends-now", "starts-now"]))})
+                     "win": draw(st.sampled_from(["expired", "not-yet", "expired-1h",
+                                                  "not-yet-1h"])),
+                     "bwin": draw(st.sampled_from(["ends-now", "starts-now", "ends-in-1h",
+                                                   "started-1h-ago"]))})
     return {"spec": spec, "corruptions": corr,
+            # UTC offset of the host the verification runs on (seconds)
+            "tz_offset": draw(st.sampled_from([0, 0, -10800, 3600, 19800, -43200, 50400])),
             "again": draw(st.lists(st.sampled_from(["same", "other", "same"]), max_size=3)),
             "other_root": draw(st.integers(1, 2 ** 255))}
 
@@ -92,7 +96,8 @@ def apply(c):
         windows[nm] = k["win"] if k["kind"] == "window" else k["bwin"]
     spec["windows"] = windows
     v = V2Cert(spec)
-    broken = set(nm for nm, wname in windows.items() if wname in ("expired", "not-yet"))
+    broken = set(nm for nm, wname in windows.items()
+                 if wname in ("expired", "not-yet", "expired-1h", "not-yet-1h"))
     doc = v.to_dict()
     els = {e["name"]: e for e in doc["elements"]}
     root_map = v.root_element_map()
@@ -303,6 +308,8 @@ def run_case(c):
         json.dump(doc, f)
     cert = HSMCertificate.from_jsonfile(fpath)
     labels.append("depth:%d" % len(v.chain))
+    certs.FakeDatetime.local_offset = c.get("tz_offset", 0)
+    labels.append("tz:utc" if not c.get("tz_offset") else "tz:other")
     other = certs.p256_key(c.get("other_root", 1), role="unrelated-root")
     other_map = {"name": "sgx_root", "signed_by": "sgx_root",
                  "message": certs.der_to_b64(certs.cert_der(certs.make_cert(
